@@ -459,6 +459,13 @@ def plan(tier, seed):
     for mech in ('fallback',) if tier == 'quick' else ('fallback', 'Select', 'EPoll'):
         scn = {'mech': mech, 'firers': 1, 'events': 2, 'task': True, 'stop_any_time': True}
         sched += [{'kind': 'sched', 'scn': scn, 'lo': lo, 'hi': lo + 200, 'step': 1, 'ks': ['INF']} for lo in (0, 200, 400, 600, 800, 1000)]
+    # a loop that never sleeps (a handler keeps an event pending until the stopper is about to call stop()): the loop thread is runnable
+    # wherever the stopper is pre-empted inside stop() - in particular between its two steps - and passes the `while running or queued`
+    # test of run() on its own; `stopped` must have been dispatched when run() returns all the same
+    for mech in ('fallback',) if tier == 'quick' else ('fallback', 'Select'):
+        scn = {'mech': mech, 'firers': 1, 'events': 1, 'busy': True}
+        sched += [{'kind': 'sched', 'scn': scn, 'lo': lo, 'hi': lo + 500, 'step': 7 if tier == 'quick' else 3, 'ks': [6, 8, 10] if tier == 'quick' else list(range(4, 13))}
+                  for lo in (800, 1300)]
     if tier == 'quick':
         return [{'kind': 'corpus'}] + [{'kind': 'random', 'seed': seed * 1000 + i, 'n': 40} for i in range(15)] + sched
     return [{'kind': 'corpus'}] + [{'kind': 'random', 'seed': seed * 100000 + i, 'n': 700} for i in range(32)] + sched
